@@ -19,6 +19,7 @@ FinDef(b) == CASE b = b3 -> b2 [] b = a3 -> a2 [] OTHER -> NoBlock
 
 Stream5 == <<a1, a2, b2, b3, a3>>
 Stream4 == <<a1, a2, b2, b3>>
+Stream3 == <<a1, a2, b2>>
 Stream6 == <<a1, a2, b2, b3, a3, b4>>
 OrderAsIs == <<"blk", "cache", "pub">>
 OrderPubFirst == <<"pub", "blk", "cache">>      \* seeded fault: bestSummary.Store before bulk.Write()
